@@ -194,14 +194,56 @@ def run(chk):
                     sample={"setting": f"{cls}.{field}", "default": val})
     # hourly seed plumbing: _check_seed propagates the seed to elasticnet and temporal_cluster
     cs = chk.repo.func("opendsm.eemeter.models.hourly.settings", "BaseHourlySettings._check_seed")
-    txt = unparse(cs.node)
-    r1a.require("self.elasticnet._seed = self._seed" in txt and "self.temporal_cluster._seed = self._seed" in txt and "self._seed = self.seed" in txt, f"{cs.key}|seed-propagation", cs.where(),
-                "BaseHourlySettings._check_seed must copy the user's seed to _seed and propagate it to the elasticnet and temporal_cluster settings")
+    # interpreted for an explicit seed (0 included) and for none: the effective seed is the user's, or one fresh draw, and reaches both consumers
+    from engine.absint import AbsObj, ModuleEnv
+    from engine.pyinterp import Function, Interp, InterpRaised, Stub, StubCall, Unsupported
+    for given in (7, 0, None):
+        draws = []
+
+        class _RNG(Stub):
+            @staticmethod
+            def randint(*a, **k):
+                draws.append(a)
+                return f"<draw {len(draws)}>"
+
+        class _NP(Stub):
+            random = _RNG()
+            int64 = "int64"
+        me = AbsObj({"BaseHourlySettings"}, seed=given, elasticnet=AbsObj({"ElasticNetSettings"}), temporal_cluster=AbsObj({"TemporalClusterSettings"}))
+        it = Interp(step_limit=5_000)
+        key = f"{cs.key}|seed-propagation|seed={given}"
+        try:
+            Function(cs.node, ModuleEnv(chk.repo, cs.module, it, {"np": _NP(), "numpy": _NP()}), it)(me)
+        except InterpRaised as e:
+            r1a.require(False, key, cs.where(), f"_check_seed raises {e.exc_name} for seed={given}")
+            continue
+        except Unsupported as e:
+            raise AnalysisError(f"{cs.key}: outside the interpreted subset: {e}")
+        eff = me.__dict__.get("_seed")
+        want = given if given is not None else "<draw 1>"
+        got = (eff, me.elasticnet.__dict__.get("_seed"), me.temporal_cluster.__dict__.get("_seed"), len(draws))
+        r1a.require(got == (want, want, want, 0 if given is not None else 1), key, cs.where(),
+                    f"BaseHourlySettings._check_seed(seed={given}): the effective seed must be {'the seed given' if given is not None else 'one fresh draw'} and be copied to the elasticnet and "
+                    f"temporal_cluster settings; found _seed={got[0]!r}, elasticnet._seed={got[1]!r}, temporal_cluster._seed={got[2]!r}, random draws={got[3]}", sample={"seed": given})
     # the cluster call receives settings._seed in the seed position
     hm = chk.repo.cls(*HOURLY_MODEL)
     acf = method(chk, hm, "_add_categorical_features")
-    seeded = any(isinstance(c.func, ast.Name) and c.func.id == "_cluster_temporal_features" and c.args and unparse(c.args[-1]) == "settings._seed" for n in ast.walk(acf.node) if isinstance(n, ast.Call) for c in [n])
-    r1a.require(seeded, f"{acf.key}|cluster-seed", acf.where(), "_cluster_temporal_features must be called with settings._seed as its seed")
+    from engine.pattern import Expander
+    from rules.common import bind_call
+    ctf = chk.repo.func(HOURLY_MODEL[0], "_cluster_temporal_features")
+    seed_param = [p for p in ctf.params if "seed" in p.lower() or p == "random_state"]
+    if len(seed_param) != 1:
+        raise AnalysisError(f"_cluster_temporal_features: expected one seed parameter, found {seed_param}")
+    sites = [(f, c) for f in [acf] + [g for g in acf.module.all_funcs if g.parent_func is acf] for c in calls_in(f.node) if isinstance(c.func, ast.Name) and c.func.id == "_cluster_temporal_features"]
+    seeded = bool(sites)
+    found = []
+    for f, c in sites:
+        b = bind_call(c, ctf)
+        e = b.get(seed_param[0]) if b else None
+        full = unparse(Expander(f.node, through_updates=True).expand(e, f.module.enclosing_stmt(c), depth=6)) if e is not None else None
+        found.append(full)
+        seeded = seeded and full in ("self.settings.temporal_cluster._seed", "self.settings._seed")
+    r1a.require(seeded, f"{acf.key}|cluster-seed", acf.where(), f"_cluster_temporal_features must be given the settings' seed (settings.temporal_cluster._seed) as `{seed_param[0]}`; found {found}")
 
     # ------------------------------------------------------------------ R03.1b clocks
     serialised_attrs: Set[str] = set()
